@@ -2,3 +2,990 @@
 From BVA Require Import Base.Prelude Base.Result Base.Words Base.Limbs.
 From BVA Require Import Model.Core Model.Ops Model.Arith Model.Conv Model.Auto Spec.Spec Proofs.Common.
 From Coq Require Import ZifyBool ZifyN ZifyNat.
+
+(* ------------------------------------------------------------------ small facts *)
+
+Lemma wsub1_pos n : 0 < n -> wsub1 n = n - 1.
+Proof. intros H. unfold wsub1. destruct (N.eqb_spec n 0); [lia|reflexivity]. Qed.
+
+Lemma min_chunk a b : 1 <= N.min (a + 1) (b + 1) /\ N.min (a + 1) (b + 1) <= a + 1 /\ N.min (a + 1) (b + 1) <= b + 1.
+Proof. lia. Qed.
+
+Lemma b2n_testbit_le1 a i : N.b2n (N.testbit a i) <= 1.
+Proof. destruct (N.testbit a i); cbn; lia. Qed.
+
+Section S.
+Variable w : N.
+Hypothesis Hw : 0 < w.
+
+(* a chunk of l bits ending just below position n, with l at most the number of bits of the
+   word of bit n-1 that are below n, lies inside one word *)
+Lemma down_window n l :
+  0 < n -> 1 <= l -> l <= (n - 1) mod w + 1 -> l <= n /\ (n - l) mod w + l <= w.
+Proof.
+  intros Hn Hl Hle.
+  pose proof (div_mod_eq (n - 1) w) as E. pose proof (mod_lt' (n - 1) w Hw) as Hm.
+  pose proof (N.mod_le (n - 1) w) as Hle'.
+  assert (l <= n) as Hln by lia. split; [assumption|].
+  destruct (divmod_unique (n - l) w ((n - 1) / w) ((n - 1) mod w + 1 - l) Hw) as [_ ->]; lia.
+Qed.
+
+Lemma up_window n l : l <= w - n mod w -> n mod w + l <= w.
+Proof. intros H. pose proof (mod_lt' n w Hw). lia. Qed.
+
+Lemma up_chunk a b : 1 <= N.min (w - a mod w) (w - b mod w).
+Proof. pose proof (mod_lt' a w Hw). pose proof (mod_lt' b w Hw). lia. Qed.
+
+(* ------------------------------------------------------------------ or_bits *)
+
+Lemma lor_lt a b n : a < 2 ^ n -> b < 2 ^ n -> N.lor a b < 2 ^ n.
+Proof.
+  intros Ha Hb. apply lt_pow2_of_bits. intros i Hi.
+  rewrite N.lor_spec, (testbit_high a n i), (testbit_high b n i) by assumption. reflexivity.
+Qed.
+
+Lemma words_ok_or_bits d pos v : words_ok w d -> words_ok w (or_bits w d pos v).
+Proof.
+  intros Hd. unfold or_bits. apply words_ok_setw; [assumption|].
+  apply lor_lt; [apply getw_ok; assumption|apply shlw_lt].
+Qed.
+
+Lemma lenw_or_bits d pos v : lenw (or_bits w d pos v) = lenw d.
+Proof. unfold or_bits. apply lenw_setw. Qed.
+
+Lemma or_bits_testbit d pos l v i :
+  words_ok w d -> pos / w < lenw d -> pos mod w + l <= w -> v < 2 ^ l ->
+  N.testbit (raw w (or_bits w d pos v)) i =
+  N.testbit (raw w d) i || ((pos <=? i) && (i <? pos + l) && N.testbit v (i - pos)).
+Proof.
+  intros Hd Hp Hl Hv.
+  rewrite !(raw_testbit w Hw) by (try apply words_ok_or_bits; assumption).
+  unfold or_bits. rewrite getw_setw.
+  assert (pos / w <? lenw d = true) as -> by (apply N.ltb_lt; assumption).
+  rewrite andb_true_r.
+  pose proof (div_mod_eq pos w) as Ep. pose proof (mod_lt' pos w Hw) as Hpm.
+  pose proof (div_mod_eq i w) as Ei. pose proof (mod_lt' i w Hw) as Him.
+  destruct (N.eqb_spec (pos / w) (i / w)) as [Heq|Hne].
+  - rewrite N.lor_spec, shlw_testbit. rewrite Heq. f_equal.
+    assert (i mod w <? w = true) as -> by (apply N.ltb_lt; assumption). cbn [andb].
+    assert ((pos mod w <=? i mod w) = (pos <=? i)) as ->.
+    { destruct (N.leb_spec (pos mod w) (i mod w)); destruct (N.leb_spec pos i); try reflexivity; nia. }
+    destruct (N.leb_spec pos i) as [Hpi|Hpi]; cbn [andb]; [|reflexivity].
+    assert (i mod w - pos mod w = i - pos) as -> by nia.
+    destruct (N.ltb_spec i (pos + l)) as [Hil|Hil]; cbn [andb]; [reflexivity|].
+    apply (testbit_high v l); [assumption|lia].
+  - assert ((pos <=? i) && (i <? pos + l) = false) as ->; [|cbn [andb]; rewrite orb_false_r; reflexivity].
+    apply andb_false_iff.
+    destruct (N.lt_ge_cases (i / w) (pos / w)).
+    + left. apply N.leb_gt. nia.
+    + right. apply N.ltb_ge. assert (pos / w + 1 <= i / w) by lia. nia.
+Qed.
+
+(* ------------------------------------------------------------------ shl_assign *)
+
+Definition shl_inv (d0 : list N) (len shift : N) (d : list N) (idx : N) : Prop :=
+  words_ok w d /\ lenw d = lenw d0 /\ idx <= len /\
+  forall i, N.testbit (raw w d) i =
+            if idx <=? i then (shift <=? i) && (i <? len) && N.testbit (raw w d0) (i - shift)
+            else N.testbit (raw w d0) i.
+
+Lemma shl_step d0 len shift d idx l :
+  len <= w * lenw d0 -> shl_inv d0 len shift d idx ->
+  1 <= l -> shift + l <= idx -> (idx - l) mod w + l <= w -> (idx - l - shift) mod w + l <= w ->
+  shl_inv d0 len shift (write_bits w d (idx - l) l (read_bits w d (idx - l - shift) l)) (idx - l).
+Proof.
+  intros Hlen (Hd & Hl & Hidx & Hb) Hl1 Hsl Hw1 Hw2.
+  split; [apply words_ok_write_bits; assumption|].
+  split; [rewrite lenw_write_bits; assumption|].
+  split; [lia|]. intros i.
+  rewrite (write_bits_testbit w Hw); try assumption.
+  2:{ rewrite Hl. apply div_lt_of_lt_mul; [assumption|lia]. }
+  2:{ apply read_bits_lt. }
+  destruct (N.leb_spec (idx - l) i) as [H1|H1]; cbn [andb].
+  - destruct (N.ltb_spec i (idx - l + l)) as [H2|H2].
+    + rewrite (read_bits_testbit w Hw) by assumption.
+      assert (i - (idx - l) <? l = true) as -> by (apply N.ltb_lt; lia). cbn [andb].
+      replace (idx - l - shift + (i - (idx - l))) with (i - shift) by lia.
+      rewrite Hb.
+      assert (idx <=? i - shift = false) as -> by (apply N.leb_gt; lia).
+      assert (shift <=? i = true) as -> by (apply N.leb_le; lia).
+      assert (i <? len = true) as -> by (apply N.ltb_lt; lia).
+      reflexivity.
+    + rewrite Hb. assert (idx <=? i = true) as -> by (apply N.leb_le; lia). reflexivity.
+  - rewrite Hb. assert (idx <=? i = false) as -> by (apply N.leb_gt; lia). reflexivity.
+Qed.
+
+Lemma shl_loop1_spec d0 len shift fuel : forall d idx,
+  len <= w * lenw d0 -> shl_inv d0 len shift d idx -> (N.to_nat idx < fuel)%nat ->
+  exists d' idx', shl_loop1 fuel w shift d idx = Ok (d', idx') /\
+                  shl_inv d0 len shift d' idx' /\ idx' <= shift.
+Proof.
+  induction fuel as [|f IH]; intros d idx Hlen Hinv Hf; [lia|].
+  cbn [shl_loop1].
+  destruct (N.ltb_spec shift idx) as [Hs|Hs].
+  - rewrite !wsub1_pos by lia.
+    pose proof (min_chunk ((idx - 1) mod w) ((idx - shift - 1) mod w)) as (Hl1 & Hl2 & Hl3).
+    set (l := N.min ((idx - 1) mod w + 1) ((idx - shift - 1) mod w + 1)) in *.
+    destruct (down_window idx l) as [Ha1 Ha2]; [lia|assumption|assumption|].
+    destruct (down_window (idx - shift) l) as [Hb1 Hb2]; [lia|assumption|assumption|].
+    replace (idx - shift - l) with (idx - l - shift) in Hb2 by lia.
+    apply IH; [assumption| |lia].
+    apply shl_step; try assumption. lia.
+  - exists d, idx. split; [reflexivity|]. split; assumption.
+Qed.
+
+Lemma shl_loop2_spec fuel : forall d idx,
+  words_ok w d -> idx <= w * lenw d -> (N.to_nat idx < fuel)%nat ->
+  exists d', shl_loop2 fuel w d idx = Ok d' /\ words_ok w d' /\ lenw d' = lenw d /\
+             forall i, N.testbit (raw w d') i = if i <? idx then false else N.testbit (raw w d) i.
+Proof.
+  induction fuel as [|f IH]; intros d idx Hd Hidx Hf; [lia|].
+  cbn [shl_loop2].
+  destruct (N.ltb_spec 0 idx) as [Hs|Hs].
+  - rewrite !wsub1_pos by lia.
+    set (l := (idx - 1) mod w + 1).
+    destruct (down_window idx l) as [Ha1 Ha2]; [lia|unfold l; lia|unfold l; lia|].
+    assert (1 <= l) as Hl1 by (unfold l; lia).
+    destruct (IH (clear_bits w d (idx - l) l) (idx - l)) as (d' & E & Hd' & Hl' & Hb').
+    { apply words_ok_write_bits; assumption. }
+    { unfold clear_bits. rewrite lenw_write_bits. lia. }
+    { lia. }
+    exists d'. split; [exact E|]. split; [assumption|].
+    split; [rewrite Hl'; apply lenw_write_bits|].
+    intros i. rewrite Hb'. unfold clear_bits.
+    rewrite (write_bits_testbit w Hw); try assumption.
+    2:{ apply div_lt_of_lt_mul; [assumption|lia]. }
+    2:{ apply pow2_pos. }
+    rewrite N.bits_0.
+    destruct (N.ltb_spec i (idx - l)); destruct (N.ltb_spec i idx);
+      destruct (N.leb_spec (idx - l) i); destruct (N.ltb_spec i (idx - l + l)); cbn [andb]; try reflexivity; lia.
+  - exists d. split; [reflexivity|]. split; [assumption|]. split; [reflexivity|].
+    intros i. assert (i <? idx = false) as -> by (apply N.ltb_ge; lia). reflexivity.
+Qed.
+
+End S.
+
+Lemma shl_assign_spec w v k :
+  0 < w -> canon_wv w v ->
+  exists v', v_shl_assign w v k = Ok v' /\ canon_wv w v' /\ wl v' = wl v /\ lenw (wd v') = lenw (wd v) /\
+    forall i, N.testbit (raw w (wd v')) i =
+              (shift_amount k <=? i) && (i <? wl v) && N.testbit (raw w (wd v)) (i - shift_amount k).
+Proof.
+  intros Hw Hc. pose proof Hc as (Hd & Hlen & Hraw).
+  unfold v_shl_assign. set (shift := shift_amount k).
+  destruct (N.eqb_spec shift 0) as [Hs0|Hs0].
+  - exists v. split; [reflexivity|]. split; [assumption|]. split; [reflexivity|]. split; [reflexivity|].
+    intros i. rewrite Hs0, N.sub_0_r. cbn [andb N.leb].
+    assert (0 <=? i = true) as -> by (apply N.leb_le; lia). cbn [andb].
+    destruct (N.ltb_spec i (wl v)) as [Hi|Hi]; [reflexivity|].
+    apply (canon_raw_high w v i Hc Hi).
+  - destruct (shl_loop1_spec w Hw (wd v) (wl v) shift (S (N.to_nat (wl v))) (wd v) (wl v))
+      as (d1 & idx & E1 & (Hd1 & Hl1 & Hidx & Hb1) & Hidx').
+    { assumption. }
+    { split; [assumption|]. split; [reflexivity|]. split; [lia|]. intros i.
+      destruct (N.leb_spec (wl v) i) as [Hi|Hi]; [|reflexivity].
+      assert (i <? wl v = false) as -> by (apply N.ltb_ge; assumption).
+      rewrite andb_false_r. cbn [andb]. apply (canon_raw_high w v i Hc Hi). }
+    { lia. }
+    rewrite E1. cbn [bind].
+    destruct (shl_loop2_spec w Hw (S (N.to_nat (wl v))) d1 idx) as (d2 & E2 & Hd2 & Hl2 & Hb2).
+    { assumption. } { rewrite Hl1. lia. } { lia. }
+    rewrite E2. cbn [bind].
+    exists (mkwv d2 (wl v)). split; [reflexivity|].
+    assert (forall i, N.testbit (raw w d2) i =
+              (shift <=? i) && (i <? wl v) && N.testbit (raw w (wd v)) (i - shift)) as Hbits.
+    { intros i. rewrite Hb2, Hb1.
+      destruct (N.ltb_spec i idx) as [Hi|Hi].
+      - assert (shift <=? i = false) as -> by (apply N.leb_gt; lia). reflexivity.
+      - assert (idx <=? i = true) as -> by (apply N.leb_le; lia). reflexivity. }
+    split.
+    { apply canon_of_bits; [assumption|rewrite Hl2, Hl1; assumption|].
+      intros i Hi. rewrite Hbits.
+      assert (i <? wl v = false) as -> by (apply N.ltb_ge; assumption).
+      rewrite andb_false_r. reflexivity. }
+    cbn [wl wd]. split; [reflexivity|]. split; [rewrite Hl2, Hl1; reflexivity|]. exact Hbits.
+Qed.
+
+(* ------------------------------------------------------------------ shr_assign *)
+
+Section S2.
+Variable w : N.
+Hypothesis Hw : 0 < w.
+
+Definition shr_inv (d0 : list N) (shift : N) (d : list N) (idx : N) : Prop :=
+  words_ok w d /\ lenw d = lenw d0 /\
+  forall i, N.testbit (raw w d) i =
+            if i <? idx then N.testbit (raw w d0) (i + shift) else N.testbit (raw w d0) i.
+
+Lemma shr_step d0 len shift d idx l :
+  len <= w * lenw d0 -> shr_inv d0 shift d idx -> idx < len ->
+  idx mod w + l <= w -> (idx + shift) mod w + l <= w ->
+  shr_inv d0 shift (write_bits w d idx l (read_bits w d (idx + shift) l)) (idx + l).
+Proof.
+  intros Hlen (Hd & Hl & Hb) Hidx Hw1 Hw2.
+  split; [apply words_ok_write_bits; assumption|].
+  split; [rewrite lenw_write_bits; assumption|].
+  intros i.
+  rewrite (write_bits_testbit w Hw); try assumption.
+  2:{ rewrite Hl. apply div_lt_of_lt_mul; [assumption|lia]. }
+  2:{ apply read_bits_lt. }
+  destruct (N.leb_spec idx i) as [H1|H1]; cbn [andb].
+  - destruct (N.ltb_spec i (idx + l)) as [H2|H2].
+    + rewrite (read_bits_testbit w Hw) by assumption.
+      assert (i - idx <? l = true) as -> by (apply N.ltb_lt; lia). cbn [andb].
+      replace (idx + shift + (i - idx)) with (i + shift) by lia.
+      rewrite Hb.
+      assert (i + shift <? idx = false) as -> by (apply N.ltb_ge; lia). reflexivity.
+    + rewrite Hb. assert (i <? idx = false) as -> by (apply N.ltb_ge; lia). reflexivity.
+  - rewrite Hb.
+    assert (i <? idx = true) as -> by (apply N.ltb_lt; lia).
+    assert (i <? idx + l = true) as -> by (apply N.ltb_lt; lia). reflexivity.
+Qed.
+
+Lemma shr_loop1_spec d0 len shift fuel : forall d idx,
+  len <= w * lenw d0 -> shr_inv d0 shift d idx -> (N.to_nat (len - idx) < fuel)%nat ->
+  exists d' idx', shr_loop1 fuel w shift len d idx = Ok (d', idx') /\
+                  shr_inv d0 shift d' idx' /\ len <= idx' + shift.
+Proof.
+  induction fuel as [|f IH]; intros d idx Hlen Hinv Hf.
+  - lia.
+  - cbn [shr_loop1].
+    destruct (N.ltb_spec (idx + shift) len) as [Hs|Hs].
+    + pose proof (up_chunk w Hw idx (idx + shift)) as Hl1.
+      set (l := N.min (w - idx mod w) (w - (idx + shift) mod w)) in *.
+      apply IH; [assumption| |lia].
+      apply (shr_step d0 len); try assumption; [lia| |]; apply up_window; try assumption; unfold l; lia.
+    + exists d, idx. split; [reflexivity|]. split; assumption.
+Qed.
+
+Lemma shr_loop2_spec len fuel : forall d idx,
+  words_ok w d -> len <= w * lenw d -> (N.to_nat (len - idx) < fuel)%nat ->
+  exists d' idx2, shr_loop2 fuel w len d idx = Ok d' /\ words_ok w d' /\ lenw d' = lenw d /\
+             idx <= idx2 /\ len <= idx2 /\
+             forall i, N.testbit (raw w d') i =
+                       if (idx <=? i) && (i <? idx2) then false else N.testbit (raw w d) i.
+Proof.
+  induction fuel as [|f IH]; intros d idx Hd Hlen Hf.
+  - lia.
+  - cbn [shr_loop2].
+    destruct (N.ltb_spec idx len) as [Hs|Hs].
+    + pose proof (mod_lt' idx w Hw) as Hm.
+      set (l := w - idx mod w).
+      assert (1 <= l) as Hl1 by (unfold l; lia).
+      assert (idx mod w + l <= w) as Hwin by (unfold l; lia).
+      destruct (IH (clear_bits w d idx l) (idx + l)) as (d' & idx2 & E & Hd' & Hl' & Hi1 & Hi2 & Hb').
+      { apply words_ok_write_bits; assumption. }
+      { unfold clear_bits. rewrite lenw_write_bits. lia. }
+      { lia. }
+      exists d', idx2. split; [exact E|]. split; [assumption|].
+      split; [rewrite Hl'; apply lenw_write_bits|].
+      split; [lia|]. split; [assumption|].
+      intros i. rewrite Hb'. unfold clear_bits.
+      rewrite (write_bits_testbit w Hw); try assumption.
+      2:{ apply div_lt_of_lt_mul; [assumption|lia]. }
+      2:{ apply pow2_pos. }
+      rewrite N.bits_0.
+      destruct (N.leb_spec (idx + l) i); destruct (N.ltb_spec i idx2);
+        destruct (N.leb_spec idx i); destruct (N.ltb_spec i (idx + l)); cbn [andb]; try reflexivity; lia.
+    + exists d, idx. split; [reflexivity|]. split; [assumption|]. split; [reflexivity|].
+      split; [lia|]. split; [assumption|].
+      intros i. destruct (N.leb_spec idx i); destruct (N.ltb_spec i idx); cbn [andb]; try reflexivity; lia.
+Qed.
+
+End S2.
+
+Lemma shr_assign_spec w v k :
+  0 < w -> canon_wv w v ->
+  exists v', v_shr_assign w v k = Ok v' /\ canon_wv w v' /\ wl v' = wl v /\ lenw (wd v') = lenw (wd v) /\
+    forall i, N.testbit (raw w (wd v')) i = N.testbit (raw w (wd v)) (i + shift_amount k).
+Proof.
+  intros Hw Hc. pose proof Hc as (Hd & Hlen & Hraw).
+  unfold v_shr_assign. set (shift := shift_amount k).
+  destruct (N.eqb_spec shift 0) as [Hs0|Hs0].
+  - exists v. split; [reflexivity|]. split; [assumption|]. split; [reflexivity|]. split; [reflexivity|].
+    intros i. rewrite Hs0, N.add_0_r. reflexivity.
+  - destruct (shr_loop1_spec w Hw (wd v) (wl v) shift (S (N.to_nat (wl v))) (wd v) 0)
+      as (d1 & idx & E1 & (Hd1 & Hl1 & Hb1) & Hidx').
+    { assumption. }
+    { split; [assumption|]. split; [reflexivity|]. intros i.
+      assert (i <? 0 = false) as -> by (apply N.ltb_ge; lia). reflexivity. }
+    { lia. }
+    rewrite E1. cbn [bind].
+    destruct (shr_loop2_spec w Hw (wl v) (S (N.to_nat (wl v))) d1 idx)
+      as (d2 & idx2 & E2 & Hd2 & Hl2 & Hi1 & Hi2 & Hb2).
+    { assumption. } { rewrite Hl1. lia. } { lia. }
+    rewrite E2. cbn [bind].
+    exists (mkwv d2 (wl v)). split; [reflexivity|].
+    assert (forall i, N.testbit (raw w d2) i = N.testbit (raw w (wd v)) (i + shift)) as Hbits.
+    { intros i. rewrite Hb2, Hb1.
+      destruct (N.leb_spec idx i) as [Hi|Hi]; cbn [andb].
+      - assert (i <? idx = false) as -> by (apply N.ltb_ge; lia).
+        rewrite (canon_raw_high w v (i + shift) Hc) by lia.
+        destruct (N.ltb_spec i idx2) as [Hj|Hj]; [reflexivity|].
+        apply (canon_raw_high w v i Hc). lia.
+      - assert (i <? idx = true) as -> by (apply N.ltb_lt; lia). reflexivity. }
+    split.
+    { apply canon_of_bits; [assumption|rewrite Hl2, Hl1; assumption|].
+      intros i Hi. rewrite Hbits. apply (canon_raw_high w v _ Hc). lia. }
+    cbn [wl wd]. split; [reflexivity|]. split; [rewrite Hl2, Hl1; reflexivity|]. exact Hbits.
+Qed.
+
+(* ------------------------------------------------------------------ shifts by one *)
+
+Lemma land_1 a : N.land a 1 = N.b2n (N.testbit a 0).
+Proof. change 1 with (N.ones 1) at 1. rewrite N.land_ones, N.bit0_mod, N.pow_1_r. reflexivity. Qed.
+
+Lemma land_1_le a : N.land a 1 <= 1.
+Proof. rewrite land_1. apply b2n_testbit_le1. Qed.
+
+Lemma le1_testbit b i : b <= 1 -> N.testbit b i = (i =? 0) && N.testbit b 0.
+Proof.
+  intros Hb. destruct (N.eqb_spec i 0) as [->|Hi]; [reflexivity|].
+  apply (testbit_high b 1); [change (2 ^ 1) with 2; lia|lia].
+Qed.
+
+Lemma b2n_testbit0 b : b <= 1 -> N.b2n (N.testbit b 0) = b.
+Proof. intros Hb. assert (b = 0 \/ b = 1) as [-> | ->] by lia; reflexivity. Qed.
+
+(* 2a + b as a concatenation *)
+Lemma dbl_testbit a b i : b <= 1 ->
+  N.testbit (2 * a + b) i = if i =? 0 then N.testbit b 0 else N.testbit a (i - 1).
+Proof.
+  intros Hb. replace (2 * a + b) with (b + 2 ^ 1 * a) by (change (2 ^ 1) with 2; lia).
+  rewrite concat_testbit by (change (2 ^ 1) with 2; lia).
+  destruct (N.eqb_spec i 0) as [->|Hi]; [reflexivity|].
+  assert (i <? 1 = false) as -> by (apply N.ltb_ge; lia). reflexivity.
+Qed.
+
+Section Sin.
+Variable w : N.
+Hypothesis Hw : 0 < w.
+
+Lemma le1_lt_word b : b <= 1 -> b < 2 ^ w.
+Proof. intros Hb. pose proof (pow2_le 1 w ltac:(lia)) as H. change (2 ^ 1) with 2 in H. lia. Qed.
+
+Definition shl_f (st : list N * N) (i : N) : list N * N :=
+  let '(d, carry) := st in
+  let x := getw d i in
+  (setw d i (N.lor (shlw w x 1) carry), N.land (shrw x (w - 1)) 1).
+
+(* carry into word j *)
+Definition shl_cin (d0 : list N) (b j : N) : N :=
+  if j =? 0 then b else N.land (shrw (getw d0 (j - 1)) (w - 1)) 1.
+
+Lemma shl_in_loop d0 b n : forall d1 c1,
+  n <= lenw d0 -> fold_left shl_f (nrange n) (d0, b) = (d1, c1) ->
+  lenw d1 = lenw d0 /\ c1 = shl_cin d0 b n /\
+  forall j, getw d1 j = if j <? n then N.lor (shlw w (getw d0 j) 1) (shl_cin d0 b j) else getw d0 j.
+Proof.
+  induction n as [|n IH] using N.peano_ind; intros d1 c1 Hn E.
+  - rewrite nrange_0 in E. cbn [fold_left] in E. injection E as <- <-.
+    split; [reflexivity|]. split; [reflexivity|]. intros j.
+    assert (j <? 0 = false) as -> by (apply N.ltb_ge; lia). reflexivity.
+  - rewrite <- N.add_1_r in *. rewrite nrange_succ, fold_left_app in E.
+    destruct (fold_left shl_f (nrange n) (d0, b)) as [d c] eqn:E0.
+    destruct (IH d c ltac:(lia) eq_refl) as (Hl & Hc & Hg).
+    cbn [fold_left shl_f] in E. injection E as <- <-.
+    split; [rewrite lenw_setw; assumption|].
+    assert (getw d n = getw d0 n) as Hgn.
+    { rewrite Hg. assert (n <? n = false) as -> by (apply N.ltb_ge; lia). reflexivity. }
+    split.
+    { unfold shl_cin. assert (n + 1 =? 0 = false) as -> by (apply N.eqb_neq; lia).
+      replace (n + 1 - 1) with n by lia. rewrite Hgn. reflexivity. }
+    intros j. rewrite getw_setw, Hl.
+    assert (n <? lenw d0 = true) as -> by (apply N.ltb_lt; lia). rewrite andb_true_r.
+    destruct (N.eqb_spec n j) as [<-|Hne].
+    + assert (n <? n + 1 = true) as -> by (apply N.ltb_lt; lia). rewrite Hgn, Hc. reflexivity.
+    + rewrite Hg. destruct (N.ltb_spec j n); destruct (N.ltb_spec j (n + 1)); try reflexivity; lia.
+Qed.
+
+Lemma shl_cin_le1 d0 b j : b <= 1 -> shl_cin d0 b j <= 1.
+Proof. intros Hb. unfold shl_cin. destruct (j =? 0); [assumption|apply land_1_le]. Qed.
+
+(* the new word j holds bits [w*j, w*j + w) of 2 * raw + b *)
+Lemma shl_word_testbit d0 b j r :
+  words_ok w d0 -> b <= 1 -> r < w ->
+  N.testbit (N.lor (shlw w (getw d0 j) 1) (shl_cin d0 b j)) r = N.testbit (2 * raw w d0 + b) (w * j + r).
+Proof.
+  intros Hd Hb Hr.
+  rewrite N.lor_spec, shlw_testbit, dbl_testbit by assumption.
+  rewrite (le1_testbit (shl_cin d0 b j) r) by (apply shl_cin_le1; assumption).
+  assert (r <? w = true) as -> by (apply N.ltb_lt; assumption). cbn [andb].
+  destruct (N.eqb_spec r 0) as [->|Hr0].
+  - assert (1 <=? 0 = false) as -> by reflexivity. cbn [andb orb].
+    unfold shl_cin. destruct (N.eqb_spec j 0) as [->|Hj].
+    + assert (w * 0 + 0 =? 0 = true) as -> by (apply N.eqb_eq; lia). reflexivity.
+    + assert (w * j + 0 =? 0 = false) as -> by (apply N.eqb_neq; nia).
+      rewrite land_1, N.b2n_bit0, shrw_testbit, N.add_0_l, (raw_testbit w Hw) by assumption.
+      destruct (divmod_unique (w * j + 0 - 1) w (j - 1) (w - 1) Hw) as [-> ->]; try reflexivity; nia.
+  - assert (1 <=? r = true) as -> by (apply N.leb_le; lia). cbn [andb]. rewrite orb_false_r.
+    assert (w * j + r =? 0 = false) as -> by (apply N.eqb_neq; lia).
+    rewrite (raw_testbit w Hw) by assumption.
+    destruct (divmod_unique (w * j + r - 1) w j (r - 1) Hw) as [-> ->]; try reflexivity; lia.
+Qed.
+
+Lemma shl_word_lt d0 b j : b <= 1 -> N.lor (shlw w (getw d0 j) 1) (shl_cin d0 b j) < 2 ^ w.
+Proof.
+  intros Hb. apply lor_lt; [apply shlw_lt|]. apply le1_lt_word. apply shl_cin_le1. assumption.
+Qed.
+
+Lemma shl_cin_bit d0 b j : words_ok w d0 -> 0 < j ->
+  shl_cin d0 b j = N.b2n (N.testbit (raw w d0) (w * j - 1)).
+Proof.
+  intros Hd Hj. unfold shl_cin. assert (j =? 0 = false) as -> by (apply N.eqb_neq; lia).
+  rewrite land_1, shrw_testbit, N.add_0_l, (raw_testbit w Hw) by assumption.
+  destruct (divmod_unique (w * j - 1) w (j - 1) (w - 1) Hw) as [-> ->]; try reflexivity; nia.
+Qed.
+
+End Sin.
+
+Lemma land_lt a b n : a < 2 ^ n -> N.land a b < 2 ^ n.
+Proof.
+  intros Ha. apply lt_pow2_of_bits. intros i Hi.
+  rewrite N.land_spec, (testbit_high a n i) by assumption. reflexivity.
+Qed.
+
+Lemma shl_in_aux w v b :
+  0 < w -> canon_wv w v -> b <= 1 ->
+  exists d2 c, v_shl_in w v b = (mkwv d2 (wl v), c) /\ words_ok w d2 /\ lenw d2 = lenw (wd v) /\
+    (forall i, N.testbit (raw w d2) i = (i <? wl v) && N.testbit (2 * raw w (wd v) + b) i) /\
+    c = (if wl v =? 0 then b else N.b2n (N.testbit (raw w (wd v)) (wl v - 1))).
+Proof.
+  intros Hw Hc Hb. pose proof Hc as (Hd & Hlen & Hraw).
+  unfold v_shl_in.
+  pose proof (div_mod_eq (wl v) w) as Eq. pose proof (mod_lt' (wl v) w Hw) as Hr.
+  set (q := wl v / w) in *. set (r := wl v mod w) in *.
+  assert (q <= lenw (wd v)) as Hq by nia.
+  destruct (fold_left _ (nrange q) (wd v, b)) as [d1 c1] eqn:E.
+  change (fold_left (shl_f w) (nrange q) (wd v, b) = (d1, c1)) in E.
+  apply (shl_in_loop w Hw (wd v) b q d1 c1 Hq) in E. destruct E as (Hl1 & Hc1 & Hg1).
+  assert (words_ok w d1) as Hd1.
+  { apply words_ok_getw. intros j _. rewrite Hg1.
+    destruct (j <? q); [apply shl_word_lt; assumption|apply getw_ok; assumption]. }
+  assert (forall i, N.testbit (raw w d1) i =
+                    if i <? w * q then N.testbit (2 * raw w (wd v) + b) i else N.testbit (raw w (wd v)) i) as Hb1.
+  { intros i. rewrite (raw_testbit w Hw d1) by assumption. rewrite Hg1.
+    pose proof (div_mod_eq i w) as Ei. pose proof (mod_lt' i w Hw) as Him.
+    assert ((i / w <? q) = (i <? w * q)) as ->.
+    { destruct (N.ltb_spec (i / w) q); destruct (N.ltb_spec i (w * q)); try reflexivity; nia. }
+    destruct (i <? w * q).
+    - rewrite shl_word_testbit by assumption. rewrite <- Ei. reflexivity.
+    - rewrite <- (raw_testbit w Hw) by assumption. reflexivity. }
+  destruct (N.eqb_spec r 0) as [Hr0|Hr0].
+  - exists d1, c1. split; [reflexivity|]. split; [assumption|]. split; [assumption|].
+    assert (wl v = w * q) as Hwl by lia.
+    split.
+    + intros i. rewrite Hb1, <- Hwl.
+      destruct (N.ltb_spec i (wl v)) as [Hi|Hi]; [reflexivity|].
+      apply (canon_raw_high w v i Hc Hi).
+    + rewrite Hc1. destruct (N.eqb_spec (wl v) 0) as [H0|H0].
+      * assert (q = 0) as -> by nia. reflexivity.
+      * rewrite shl_cin_bit by (assumption || nia). rewrite <- Hwl. reflexivity.
+  - assert (q < lenw (wd v)) as Hq' by nia.
+    assert (getw d1 q = getw (wd v) q) as Hgq.
+    { rewrite Hg1. assert (q <? q = false) as -> by (apply N.ltb_ge; lia). reflexivity. }
+    rewrite Hgq.
+    eexists. eexists. split; [reflexivity|].
+    split.
+    { apply words_ok_setw; [assumption|]. apply land_lt. rewrite Hc1. apply shl_word_lt; assumption. }
+    split; [rewrite lenw_setw; assumption|].
+    split.
+    + intros i.
+      rewrite (raw_testbit w Hw).
+      2:{ apply words_ok_setw; [assumption|]. apply land_lt. rewrite Hc1. apply shl_word_lt; assumption. }
+      rewrite getw_setw, Hl1.
+      assert (q <? lenw (wd v) = true) as -> by (apply N.ltb_lt; assumption). rewrite andb_true_r.
+      pose proof (div_mod_eq i w) as Ei. pose proof (mod_lt' i w Hw) as Him.
+      destruct (N.eqb_spec q (i / w)) as [Heq|Hne].
+      * rewrite N.land_spec, maskw_testbit, Hc1, Heq, shl_word_testbit by assumption.
+        rewrite <- Ei.
+        assert (i mod w <? w = true) as -> by (apply N.ltb_lt; assumption). rewrite andb_true_r.
+        assert ((i mod w <? r) = (i <? wl v)) as ->.
+        { destruct (N.ltb_spec (i mod w) r); destruct (N.ltb_spec i (wl v)); try reflexivity; nia. }
+        apply andb_comm.
+      * rewrite <- (raw_testbit w Hw) by assumption. rewrite Hb1.
+        destruct (N.ltb_spec i (w * q)) as [Hi|Hi].
+        -- assert (i <? wl v = true) as -> by (apply N.ltb_lt; lia). reflexivity.
+        -- assert (i <? wl v = false) as -> by (apply N.ltb_ge; nia). cbn [andb].
+           apply (canon_raw_high w v i Hc). nia.
+    + assert (wl v =? 0 = false) as -> by (apply N.eqb_neq; lia).
+      rewrite land_1, shrw_testbit, N.add_0_l, (raw_testbit w Hw) by assumption.
+      destruct (divmod_unique (wl v - 1) w q (r - 1) Hw) as [-> ->]; try reflexivity; lia.
+Qed.
+
+Lemma shl_in_spec w v b :
+  0 < w -> canon_wv w v -> b <= 1 ->
+  canon_wv w (fst (v_shl_in w v b)) /\ wl (fst (v_shl_in w v b)) = wl v /\
+  lenw (wd (fst (v_shl_in w v b))) = lenw (wd v) /\
+  raw w (wd (fst (v_shl_in w v b))) = (if wl v =? 0 then 0 else (2 * raw w (wd v) + b) mod 2 ^ wl v) /\
+  snd (v_shl_in w v b) = (if wl v =? 0 then b else N.b2n (N.testbit (raw w (wd v)) (wl v - 1))).
+Proof.
+  intros Hw Hc Hb. pose proof Hc as (Hd & Hlen & Hraw).
+  destruct (shl_in_aux w v b Hw Hc Hb) as (d2 & c & E & Hd2 & Hl2 & Hb2 & Hc2).
+  rewrite E. cbn [fst snd wd wl].
+  assert (raw w d2 = (2 * raw w (wd v) + b) mod 2 ^ wl v) as Hr2.
+  { apply N.bits_inj. intro i. rewrite Hb2, mod_pow2_testbit. reflexivity. }
+  split.
+  { split; [assumption|]. cbn [wd wl]. split; [rewrite Hl2; assumption|].
+    rewrite Hr2. apply N.mod_lt, pow2_ne0. }
+  split; [reflexivity|]. split; [assumption|]. split; [|assumption].
+  rewrite Hr2. destruct (N.eqb_spec (wl v) 0) as [->|]; [|reflexivity].
+  change (2 ^ 0) with 1. apply N.mod_1_r.
+Qed.
+
+(* raw / 2 + b * 2^(len-1), bit by bit *)
+Lemma shr_tgt_testbit a b len i :
+  len <> 0 -> a < 2 ^ len -> b <= 1 ->
+  N.testbit (a / 2 + b * 2 ^ (len - 1)) i =
+  if i <? len - 1 then N.testbit a (i + 1) else (i =? len - 1) && N.testbit b 0.
+Proof.
+  intros Hlen Ha Hb.
+  assert (a / 2 < 2 ^ (len - 1)) as Hlt.
+  { apply N.div_lt_upper_bound; [lia|].
+    replace (2 * 2 ^ (len - 1)) with (2 ^ len); [assumption|].
+    rewrite (pow2_split 1 len) by lia. reflexivity. }
+  replace (a / 2 + b * 2 ^ (len - 1)) with (a / 2 + 2 ^ (len - 1) * b) by lia.
+  rewrite concat_testbit by assumption.
+  destruct (N.ltb_spec i (len - 1)) as [Hi|Hi].
+  - change 2 with (2 ^ 1) at 1. apply div_pow2_testbit.
+  - rewrite (le1_testbit b (i - (len - 1))) by assumption. f_equal.
+    destruct (N.eqb_spec (i - (len - 1)) 0); destruct (N.eqb_spec i (len - 1)); try reflexivity; lia.
+Qed.
+
+Section Sin2.
+Variable w : N.
+Hypothesis Hw : 0 < w.
+
+Definition shr_f (st : list N * N) (i : N) : list N * N :=
+  let '(d, carry) := st in
+  let x := getw d i in
+  (setw d i (N.lor (shrw x 1) (shlw w carry (w - 1))), N.land x 1).
+
+Lemma shr_in_loop n : forall da c d1 c1,
+  n <= lenw da -> fold_left shr_f (rev (nrange n)) (da, c) = (d1, c1) ->
+  lenw d1 = lenw da /\ c1 = (if n =? 0 then c else N.land (getw da 0) 1) /\
+  forall j, getw d1 j =
+            if j <? n
+            then N.lor (shrw (getw da j) 1)
+                       (shlw w (if j + 1 =? n then c else N.land (getw da (j + 1)) 1) (w - 1))
+            else getw da j.
+Proof.
+  induction n as [|n IH] using N.peano_ind; intros da c d1 c1 Hn E.
+  - rewrite nrange_0 in E. cbn [rev fold_left] in E. injection E as <- <-.
+    split; [reflexivity|]. split; [reflexivity|]. intros j.
+    assert (j <? 0 = false) as -> by (apply N.ltb_ge; lia). reflexivity.
+  - rewrite <- N.add_1_r in *. rewrite nrange_succ, rev_app_distr in E.
+    cbn [rev app fold_left shr_f] in E.
+    apply IH in E; [|rewrite lenw_setw; lia].
+    destruct E as (Hl & Hc & Hg).
+    rewrite lenw_setw in Hl.
+    split; [assumption|].
+    split.
+    { rewrite Hc. assert (n + 1 =? 0 = false) as -> by (apply N.eqb_neq; lia).
+      rewrite getw_setw.
+      destruct (N.eqb_spec n 0) as [Hn0|Hn0]; cbn [andb]; [|reflexivity].
+      rewrite Hn0. destruct (0 <? lenw da); reflexivity. }
+    intros j. rewrite Hg, !getw_setw.
+    assert (n <? lenw da = true) as -> by (apply N.ltb_lt; lia). rewrite !andb_true_r.
+    destruct (N.ltb_spec j n) as [Hj|Hj].
+    + assert (j <? n + 1 = true) as -> by (apply N.ltb_lt; lia).
+      assert (n =? j = false) as -> by (apply N.eqb_neq; lia).
+      assert (j + 1 =? n + 1 = false) as -> by (apply N.eqb_neq; lia).
+      destruct (N.eqb_spec (j + 1) n) as [Hjn|Hjn].
+      * rewrite Hjn. reflexivity.
+      * assert (n =? j + 1 = false) as -> by (apply N.eqb_neq; lia). reflexivity.
+    + destruct (N.eqb_spec n j) as [<-|Hne].
+      * assert (n <? n + 1 = true) as -> by (apply N.ltb_lt; lia).
+        assert (n + 1 =? n + 1 = true) as -> by (apply N.eqb_eq; lia). reflexivity.
+      * assert (j <? n + 1 = false) as -> by (apply N.ltb_ge; lia). reflexivity.
+Qed.
+
+Lemma shr_word_testbit x c p r :
+  c <= 1 -> p < w -> x < 2 ^ (p + 1) ->
+  N.testbit (N.lor (shrw x 1) (shlw w c p)) r =
+  if r <? p then N.testbit x (r + 1) else (r =? p) && N.testbit c 0.
+Proof.
+  intros Hc Hp Hx.
+  rewrite N.lor_spec, shrw_testbit, shlw_testbit, (le1_testbit c (r - p)) by assumption.
+  destruct (N.ltb_spec r p) as [Hr|Hr].
+  - assert (p <=? r = false) as -> by (apply N.leb_gt; assumption).
+    rewrite andb_false_r. cbn [andb]. apply orb_false_r.
+  - rewrite (testbit_high x (p + 1) (r + 1)) by (assumption || lia). cbn [orb].
+    destruct (N.eqb_spec r p) as [->|Hne].
+    + assert (p <? w = true) as -> by (apply N.ltb_lt; assumption).
+      assert (p <=? p = true) as -> by (apply N.leb_le; lia).
+      assert (p - p =? 0 = true) as -> by (apply N.eqb_eq; lia). reflexivity.
+    + assert (r - p =? 0 = false) as -> by (apply N.eqb_neq; lia).
+      cbn [andb]. apply andb_false_r.
+Qed.
+
+Lemma shr_word_lt x c p : x < 2 ^ w -> N.lor (shrw x 1) (shlw w c p) < 2 ^ w.
+Proof. intros Hx. apply lor_lt; [apply shrw_lt; assumption|apply shlw_lt]. Qed.
+
+(* a word lying entirely inside the vector *)
+Lemma shr_full_word d0 len b c j r :
+  words_ok w d0 -> len <> 0 -> raw w d0 < 2 ^ len -> b <= 1 -> r < w ->
+  w * (j + 1) <= len ->
+  (w * (j + 1) = len -> c = b) -> (w * (j + 1) < len -> c = N.land (getw d0 (j + 1)) 1) ->
+  N.testbit (N.lor (shrw (getw d0 j) 1) (shlw w c (w - 1))) r =
+  N.testbit (raw w d0 / 2 + b * 2 ^ (len - 1)) (w * j + r).
+Proof.
+  intros Hd Hlen Hraw Hb Hr Hj Hc1 Hc2.
+  assert (c <= 1) as Hc.
+  { destruct (N.eq_dec (w * (j + 1)) len) as [He|He]; [rewrite Hc1 by assumption; assumption|].
+    rewrite Hc2 by lia. apply land_1_le. }
+  rewrite shr_word_testbit; [|assumption|lia|].
+  2:{ replace (w - 1 + 1) with w by lia. apply getw_ok. assumption. }
+  rewrite shr_tgt_testbit by assumption.
+  destruct (N.ltb_spec r (w - 1)) as [Hr1|Hr1].
+  - assert (w * j + r <? len - 1 = true) as -> by (apply N.ltb_lt; nia).
+    rewrite (raw_testbit w Hw) by assumption.
+    destruct (divmod_unique (w * j + r + 1) w j (r + 1) Hw) as [-> ->]; try reflexivity; lia.
+  - assert (r = w - 1) as -> by lia.
+    assert (w - 1 =? w - 1 = true) as -> by (apply N.eqb_eq; reflexivity). cbn [andb].
+    destruct (N.eq_dec (w * (j + 1)) len) as [He|He].
+    + rewrite Hc1 by assumption.
+      assert (w * j + (w - 1) <? len - 1 = false) as -> by (apply N.ltb_ge; nia).
+      assert (w * j + (w - 1) =? len - 1 = true) as -> by (apply N.eqb_eq; nia). reflexivity.
+    + rewrite Hc2 by lia.
+      assert (w * j + (w - 1) <? len - 1 = true) as -> by (apply N.ltb_lt; nia).
+      rewrite land_1, N.b2n_bit0, (raw_testbit w Hw) by assumption.
+      destruct (divmod_unique (w * j + (w - 1) + 1) w (j + 1) 0 Hw) as [-> ->]; try reflexivity; nia.
+Qed.
+
+End Sin2.
+
+Lemma getw0_bit w d : 0 < w -> words_ok w d -> N.land (getw d 0) 1 = N.b2n (N.testbit (raw w d) 0).
+Proof.
+  intros Hw Hd. rewrite land_1, (raw_testbit w Hw) by assumption.
+  rewrite N.div_0_l, N.mod_0_l by lia. reflexivity.
+Qed.
+
+Lemma shr_in_aux w v b :
+  0 < w -> canon_wv w v -> b <= 1 -> wl v <> 0 ->
+  exists d1 c, v_shr_in w v b = (mkwv d1 (wl v), c) /\ words_ok w d1 /\ lenw d1 = lenw (wd v) /\
+    (forall i, N.testbit (raw w d1) i = N.testbit (raw w (wd v) / 2 + b * 2 ^ (wl v - 1)) i) /\
+    c = N.b2n (N.testbit (raw w (wd v)) 0).
+Proof.
+  intros Hw Hc Hb Hwl. pose proof Hc as (Hd & Hlen & Hraw).
+  unfold v_shr_in.
+  pose proof (div_mod_eq (wl v) w) as Eq. pose proof (mod_lt' (wl v) w Hw) as Hr.
+  set (q := wl v / w) in *. set (r := wl v mod w) in *.
+  assert (q <= lenw (wd v)) as Hq by nia.
+  destruct (N.eqb_spec r 0) as [Hr0|Hr0].
+  - assert (wl v = w * q) as Hwq by lia. assert (q <> 0) as Hq0 by nia.
+    destruct (fold_left _ (rev (nrange q)) (wd v, b)) as [d1 c1] eqn:E.
+    change (fold_left (shr_f w) (rev (nrange q)) (wd v, b) = (d1, c1)) in E.
+    apply (shr_in_loop w Hw q (wd v) b d1 c1 Hq) in E. destruct E as (Hl1 & Hc1 & Hg1).
+    assert (words_ok w d1) as Hd1.
+    { apply words_ok_getw. intros j _. rewrite Hg1.
+      destruct (j <? q); [apply shr_word_lt|]; apply getw_ok; assumption. }
+    exists d1, c1. split; [reflexivity|]. split; [assumption|]. split; [assumption|].
+    split.
+    + intros i. rewrite (raw_testbit w Hw d1) by assumption. rewrite Hg1.
+      pose proof (div_mod_eq i w) as Ei. pose proof (mod_lt' i w Hw) as Him.
+      destruct (N.ltb_spec (i / w) q) as [Hj|Hj].
+      * rewrite (shr_full_word w Hw (wd v) (wl v) b); try assumption.
+        -- rewrite <- Ei. reflexivity.
+        -- nia.
+        -- intros He. assert (i / w + 1 =? q = true) as -> by (apply N.eqb_eq; nia). reflexivity.
+        -- intros He. assert (i / w + 1 =? q = false) as -> by (apply N.eqb_neq; nia). reflexivity.
+      * rewrite <- (raw_testbit w Hw) by assumption.
+        rewrite (canon_raw_high w v i Hc) by nia.
+        rewrite shr_tgt_testbit by assumption.
+        assert (i <? wl v - 1 = false) as -> by (apply N.ltb_ge; nia).
+        assert (i =? wl v - 1 = false) as -> by (apply N.eqb_neq; nia). reflexivity.
+    + rewrite Hc1. assert (q =? 0 = false) as -> by (apply N.eqb_neq; assumption).
+      apply getw0_bit; assumption.
+  - cbv beta iota.
+    assert (q < lenw (wd v)) as Hq' by nia.
+    set (x := getw (wd v) q).
+    set (da := setw (wd v) q (N.lor (shrw x 1) (shlw w b (r - 1)))).
+    assert (x < 2 ^ r) as Hx.
+    { apply lt_pow2_of_bits. intros i Hi. unfold x.
+      destruct (N.ltb_spec i w) as [Hiw|Hiw].
+      - pose proof (raw_testbit w Hw (wd v) (w * q + i) Hd) as Hrt.
+        destruct (divmod_unique (w * q + i) w q i Hw) as [Hq1 Hq2]; [reflexivity|assumption|].
+        rewrite Hq1, Hq2 in Hrt. rewrite <- Hrt. apply (canon_raw_high w v _ Hc). lia.
+      - apply (testbit_high _ w); [apply getw_ok; assumption|assumption]. }
+    destruct (fold_left _ (rev (nrange q)) (da, N.land x 1)) as [d1 c1] eqn:E.
+    change (fold_left (shr_f w) (rev (nrange q)) (da, N.land x 1) = (d1, c1)) in E.
+    apply (shr_in_loop w Hw q da (N.land x 1) d1 c1) in E; [|unfold da; rewrite lenw_setw; assumption].
+    destruct E as (Hl1 & Hc1 & Hg1).
+    unfold da in Hl1. rewrite lenw_setw in Hl1.
+    assert (forall j, j <> q -> getw da j = getw (wd v) j) as Hda.
+    { intros j Hj. unfold da. rewrite getw_setw.
+      assert (q =? j = false) as -> by (apply N.eqb_neq; lia). reflexivity. }
+    assert (getw da q = N.lor (shrw x 1) (shlw w b (r - 1))) as Hdaq.
+    { unfold da. rewrite getw_setw.
+      assert (q =? q = true) as -> by (apply N.eqb_eq; reflexivity).
+      assert (q <? lenw (wd v) = true) as -> by (apply N.ltb_lt; assumption). reflexivity. }
+    assert (forall j, j < q -> getw d1 j =
+              N.lor (shrw (getw (wd v) j) 1) (shlw w (N.land (getw (wd v) (j + 1)) 1) (w - 1))) as Hlo.
+    { intros j Hj. rewrite Hg1. assert (j <? q = true) as -> by (apply N.ltb_lt; assumption).
+      rewrite Hda by lia.
+      destruct (N.eqb_spec (j + 1) q) as [He|He].
+      - unfold x. rewrite He. reflexivity.
+      - rewrite Hda by assumption. reflexivity. }
+    assert (forall j, q <= j -> getw d1 j = getw da j) as Hhi.
+    { intros j Hj. rewrite Hg1. assert (j <? q = false) as -> by (apply N.ltb_ge; assumption). reflexivity. }
+    assert (words_ok w d1) as Hd1.
+    { apply words_ok_getw. intros j _.
+      destruct (N.lt_ge_cases j q) as [Hj|Hj].
+      - rewrite Hlo by assumption. apply shr_word_lt, getw_ok. assumption.
+      - rewrite Hhi by assumption. destruct (N.eq_dec j q) as [->|Hne].
+        + rewrite Hdaq. apply shr_word_lt. apply getw_ok. assumption.
+        + rewrite Hda by assumption. apply getw_ok. assumption. }
+    exists d1, c1. split; [reflexivity|]. split; [assumption|]. split; [assumption|].
+    split.
+    + intros i. rewrite (raw_testbit w Hw d1) by assumption.
+      pose proof (div_mod_eq i w) as Ei. pose proof (mod_lt' i w Hw) as Him.
+      destruct (N.lt_ge_cases (i / w) q) as [Hj|Hj].
+      * rewrite Hlo by assumption.
+        rewrite (shr_full_word w Hw (wd v) (wl v) b); try assumption.
+        -- rewrite <- Ei. reflexivity.
+        -- nia.
+        -- intros He. exfalso. nia.
+        -- intros _. reflexivity.
+      * rewrite Hhi by assumption. rewrite shr_tgt_testbit by assumption.
+        destruct (N.eq_dec (i / w) q) as [He|Hne].
+        -- rewrite He, Hdaq.
+           rewrite (shr_word_testbit w Hw x b (r - 1) (i mod w)); [|assumption|lia|].
+           2:{ replace (r - 1 + 1) with r by lia. assumption. }
+           assert ((i mod w <? r - 1) = (i <? wl v - 1)) as ->.
+           { destruct (N.ltb_spec (i mod w) (r - 1)); destruct (N.ltb_spec i (wl v - 1)); try reflexivity; nia. }
+           assert ((i mod w =? r - 1) = (i =? wl v - 1)) as ->.
+           { destruct (N.eqb_spec (i mod w) (r - 1)); destruct (N.eqb_spec i (wl v - 1)); try reflexivity; nia. }
+           destruct (N.ltb_spec i (wl v - 1)) as [Hi|Hi]; [|reflexivity].
+           rewrite (raw_testbit w Hw (wd v)) by assumption. unfold x.
+           destruct (divmod_unique (i + 1) w q (i mod w + 1) Hw) as [-> ->]; try reflexivity; nia.
+        -- rewrite Hda by assumption. rewrite <- (raw_testbit w Hw) by assumption.
+           rewrite (canon_raw_high w v i Hc) by nia.
+           assert (i <? wl v - 1 = false) as -> by (apply N.ltb_ge; nia).
+           assert (i =? wl v - 1 = false) as -> by (apply N.eqb_neq; nia). reflexivity.
+    + rewrite Hc1. destruct (N.eqb_spec q 0) as [Hq0|Hq0].
+      * unfold x. rewrite Hq0. apply getw0_bit; assumption.
+      * rewrite Hda by lia. apply getw0_bit; assumption.
+Qed.
+
+Lemma shr_in_spec w v b :
+  0 < w -> canon_wv w v -> b <= 1 ->
+  canon_wv w (fst (v_shr_in w v b)) /\ wl (fst (v_shr_in w v b)) = wl v /\
+  lenw (wd (fst (v_shr_in w v b))) = lenw (wd v) /\
+  raw w (wd (fst (v_shr_in w v b))) = (if wl v =? 0 then 0 else raw w (wd v) / 2 + b * 2 ^ (wl v - 1)) /\
+  snd (v_shr_in w v b) = (if wl v =? 0 then b else N.b2n (N.testbit (raw w (wd v)) 0)).
+Proof.
+  intros Hw Hc Hb. pose proof Hc as (Hd & Hlen & Hraw).
+  destruct (N.eqb_spec (wl v) 0) as [H0|H0].
+  - assert (v_shr_in w v b = (mkwv (wd v) (wl v), b)) as E.
+    { unfold v_shr_in. rewrite H0, N.div_0_l, N.mod_0_l by lia. reflexivity. }
+    rewrite E. cbn [fst snd wd wl].
+    split; [exact Hc|]. split; [reflexivity|]. split; [reflexivity|]. split; [|reflexivity].
+    rewrite H0 in Hraw. change (2 ^ 0) with 1 in Hraw. lia.
+  - destruct (shr_in_aux w v b Hw Hc Hb H0) as (d1 & c & E & Hd1 & Hl1 & Hb1 & Hc1).
+    rewrite E. cbn [fst snd wd wl].
+    assert (raw w d1 = raw w (wd v) / 2 + b * 2 ^ (wl v - 1)) as Hr1 by (apply N.bits_inj; exact Hb1).
+    split.
+    { apply canon_of_bits; [assumption|rewrite Hl1; assumption|].
+      intros i Hi. rewrite Hb1, shr_tgt_testbit by assumption.
+      assert (i <? wl v - 1 = false) as -> by (apply N.ltb_ge; lia).
+      assert (i =? wl v - 1 = false) as -> by (apply N.eqb_neq; lia). reflexivity. }
+    split; [reflexivity|]. split; [assumption|]. split; assumption.
+Qed.
+
+(* ------------------------------------------------------------------ Shl / Shr for &Bvd *)
+
+Lemma W64_pos : 0 < W64.
+Proof. reflexivity. Qed.
+
+Lemma cfbl_d_cap len : len <= W64 * cfbl_d len.
+Proof. unfold cfbl_d, cfbyl_d, W64. lia. Qed.
+
+(* the loops are written with the constant W64; to keep lia away from it the invariants are
+   proved for an abstract width w with a sealed equation w = W64 *)
+Definition is64 (w : N) : Prop := w = W64.
+
+Section Ref.
+Variable w : N.
+Hypothesis Hw : 0 < w.
+Hypothesis H64 : is64 w.
+
+Lemma shl_chunk_facts shift idx :
+  shift < idx ->
+  let l := N.min (wsub1 idx mod w + 1) (wsub1 (idx - shift) mod w + 1) in
+  1 <= l /\ shift + l <= idx /\ (idx - l) mod w + l <= w /\ (idx - l - shift) mod w + l <= w.
+Proof.
+  intros Hs. rewrite !wsub1_pos by lia.
+  pose proof (min_chunk ((idx - 1) mod w) ((idx - shift - 1) mod w)) as (Hl1 & Hl2 & Hl3).
+  set (l := N.min ((idx - 1) mod w + 1) ((idx - shift - 1) mod w + 1)) in *. clearbody l.
+  destruct (down_window w Hw idx l) as [Ha1 Ha2]; [lia|assumption|assumption|].
+  destruct (down_window w Hw (idx - shift) l) as [Hb1 Hb2]; [lia|assumption|assumption|].
+  assert (idx - shift - l = idx - l - shift) as Heq by (clear - Ha1 Hb1 Hs; lia).
+  rewrite Heq in Hb2. cbv zeta.
+  split; [assumption|]. split; [clear - Ha1 Hb1 Hs; lia|]. split; assumption.
+Qed.
+
+Lemma shr_chunk_facts shift idx :
+  let l := N.min (w - idx mod w) (w - (idx + shift) mod w) in
+  1 <= l /\ idx mod w + l <= w /\ (idx + shift) mod w + l <= w.
+Proof.
+  cbv zeta. split; [apply up_chunk; assumption|].
+  split; apply (up_window w Hw); lia.
+Qed.
+
+Definition shlr_inv (src : list N) (n len shift : N) (dst : list N) (idx : N) : Prop :=
+  words_ok w dst /\ lenw dst = n /\ idx <= len /\
+  forall i, N.testbit (raw w dst) i =
+            (idx <=? i) && ((shift <=? i) && (i <? len) && N.testbit (raw w src) (i - shift)).
+
+Lemma shlr_step src n len shift dst idx l :
+  words_ok w src -> len <= w * n -> shlr_inv src n len shift dst idx ->
+  1 <= l -> shift + l <= idx -> (idx - l) mod w + l <= w -> (idx - l - shift) mod w + l <= w ->
+  shlr_inv src n len shift (or_bits w dst (idx - l) (read_bits w src (idx - l - shift) l)) (idx - l).
+Proof.
+  intros Hsrc Hlen (Hd & Hl & Hidx & Hb) Hl1 Hsl Hw1 Hw2.
+  split; [apply words_ok_or_bits; assumption|].
+  split; [rewrite lenw_or_bits; assumption|].
+  split; [lia|]. intros i.
+  rewrite (or_bits_testbit w Hw dst (idx - l) l); try assumption.
+  2:{ rewrite Hl. apply div_lt_of_lt_mul; [assumption|lia]. }
+  2:{ apply read_bits_lt. }
+  rewrite Hb, (read_bits_testbit w Hw) by assumption.
+  destruct (N.leb_spec (idx - l) i) as [H1|H1]; cbn [andb].
+  - destruct (N.ltb_spec i (idx - l + l)) as [H2|H2]; cbn [andb].
+    + assert (idx <=? i = false) as -> by (apply N.leb_gt; lia). cbn [andb orb].
+      assert (i - (idx - l) <? l = true) as -> by (apply N.ltb_lt; lia). cbn [andb].
+      replace (idx - l - shift + (i - (idx - l))) with (i - shift) by lia.
+      assert (shift <=? i = true) as -> by (apply N.leb_le; lia).
+      assert (i <? len = true) as -> by (apply N.ltb_lt; lia).
+      reflexivity.
+    + assert (idx <=? i = true) as -> by (apply N.leb_le; lia). cbn [andb]. apply orb_false_r.
+  - assert (idx <=? i = false) as -> by (apply N.leb_gt; lia). reflexivity.
+Qed.
+
+Lemma shl_ref_loop_spec src n len shift fuel : forall dst idx,
+  words_ok w src -> len <= w * n -> shlr_inv src n len shift dst idx -> (N.to_nat idx < fuel)%nat ->
+  exists dst' idx', shl_ref_loop fuel shift src dst idx = Ok dst' /\
+                    shlr_inv src n len shift dst' idx' /\ idx' <= shift.
+Proof.
+  induction fuel as [|f IH]; intros dst idx Hsrc Hlen Hinv Hf; [lia|].
+  cbn [shl_ref_loop].
+  pose proof H64 as E64. unfold is64 in E64. rewrite <- E64. clear E64.
+  destruct (N.ltb_spec shift idx) as [Hs|Hs].
+  - pose proof (shl_chunk_facts shift idx Hs) as Hfacts. cbv zeta in Hfacts.
+    set (l := N.min (wsub1 idx mod w + 1) (wsub1 (idx - shift) mod w + 1)) in *. clearbody l.
+    destruct Hfacts as (Hl1 & Hl2 & Hl3 & Hl4).
+    apply IH; [assumption|assumption| |clear - Hf Hl1 Hl2; lia].
+    apply shlr_step; assumption.
+  - exists dst, idx. split; [reflexivity|]. split; assumption.
+Qed.
+
+Definition shrr_inv (src : list N) (n shift : N) (dst : list N) (idx : N) : Prop :=
+  words_ok w dst /\ lenw dst = n /\
+  forall i, N.testbit (raw w dst) i = (i <? idx) && N.testbit (raw w src) (i + shift).
+
+Lemma shrr_step src n len shift dst idx l :
+  words_ok w src -> len <= w * n -> shrr_inv src n shift dst idx -> idx < len ->
+  idx mod w + l <= w -> (idx + shift) mod w + l <= w ->
+  shrr_inv src n shift (or_bits w dst idx (read_bits w src (idx + shift) l)) (idx + l).
+Proof.
+  intros Hsrc Hlen (Hd & Hl & Hb) Hidx Hw1 Hw2.
+  split; [apply words_ok_or_bits; assumption|].
+  split; [rewrite lenw_or_bits; assumption|].
+  intros i.
+  rewrite (or_bits_testbit w Hw dst idx l); try assumption.
+  2:{ rewrite Hl. apply div_lt_of_lt_mul; [assumption|lia]. }
+  2:{ apply read_bits_lt. }
+  rewrite Hb, (read_bits_testbit w Hw) by assumption.
+  destruct (N.leb_spec idx i) as [H1|H1]; cbn [andb].
+  - assert (i <? idx = false) as -> by (apply N.ltb_ge; lia). cbn [andb orb].
+    destruct (N.ltb_spec i (idx + l)) as [H2|H2]; cbn [andb]; [|reflexivity].
+    assert (i - idx <? l = true) as -> by (apply N.ltb_lt; lia). cbn [andb].
+    replace (idx + shift + (i - idx)) with (i + shift) by lia. reflexivity.
+  - assert (i <? idx = true) as -> by (apply N.ltb_lt; lia).
+    assert (i <? idx + l = true) as -> by (apply N.ltb_lt; lia). cbn [andb]. apply orb_false_r.
+Qed.
+
+Lemma shr_ref_loop_spec src n len shift fuel : forall dst idx,
+  words_ok w src -> len <= w * n -> shrr_inv src n shift dst idx -> (N.to_nat (len - idx) < fuel)%nat ->
+  exists dst' idx', shr_ref_loop fuel shift len src dst idx = Ok dst' /\
+                    shrr_inv src n shift dst' idx' /\ len <= idx' + shift.
+Proof.
+  induction fuel as [|f IH]; intros dst idx Hsrc Hlen Hinv Hf; [lia|].
+  cbn [shr_ref_loop].
+  pose proof H64 as E64. unfold is64 in E64. rewrite <- E64. clear E64.
+  destruct (N.ltb_spec (idx + shift) len) as [Hs|Hs].
+  - pose proof (shr_chunk_facts shift idx) as Hfacts. cbv zeta in Hfacts.
+    set (l := N.min (w - idx mod w) (w - (idx + shift) mod w)) in *. clearbody l.
+    destruct Hfacts as (Hl1 & Hl2 & Hl3).
+    apply IH; [assumption|assumption| |clear - Hf Hl1 Hs; lia].
+    apply (shrr_step src n len); try assumption. clear - Hs. lia.
+  - exists dst, idx. split; [reflexivity|]. split; assumption.
+Qed.
+
+End Ref.
+
+Lemma d_shl_ref_spec v k :
+  canon_wv 64 v ->
+  exists v', d_shl_ref v k = Ok v' /\ canon_wv 64 v' /\ wl v' = wl v /\ lenw (wd v') = cfbl_d (wl v) /\
+    forall i, N.testbit (raw 64 (wd v')) i =
+              (shift_amount k <=? i) && (i <? wl v) && N.testbit (raw 64 (wd v)) (i - shift_amount k).
+Proof.
+  change 64 with W64.
+  intros Hc. pose proof Hc as (Hd & Hlen & Hraw).
+  unfold d_shl_ref. set (shift := shift_amount k).
+  destruct (shl_ref_loop_spec W64 W64_pos eq_refl (wd v) (cfbl_d (wl v)) (wl v) shift (S (N.to_nat (wl v)))
+              (zerosw (cfbl_d (wl v))) (wl v))
+    as (d1 & idx & E1 & (Hd1 & Hl1 & Hidx & Hb1) & Hidx').
+  { assumption. }
+  { apply cfbl_d_cap. }
+  { split; [apply words_ok_zerosw|]. split; [apply lenw_zerosw|]. split; [apply N.le_refl|]. intros i.
+    rewrite raw_zerosw, N.bits_0.
+    destruct (N.leb_spec (wl v) i) as [Hi|Hi]; [|reflexivity].
+    assert (i <? wl v = false) as -> by (apply N.ltb_ge; assumption).
+    rewrite andb_false_r. reflexivity. }
+  { clear. lia. }
+  rewrite E1. cbn [bind].
+  exists (mkwv d1 (wl v)). split; [reflexivity|].
+  assert (forall i, N.testbit (raw W64 d1) i =
+            (shift <=? i) && (i <? wl v) && N.testbit (raw W64 (wd v)) (i - shift)) as Hbits.
+  { intros i. rewrite Hb1.
+    destruct (N.leb_spec shift i) as [Hi|Hi].
+    - assert (idx <=? i = true) as -> by (apply N.leb_le; clear - Hi Hidx'; lia). reflexivity.
+    - cbn [andb]. apply andb_false_r. }
+  split.
+  { apply canon_of_bits; [assumption|rewrite Hl1; apply cfbl_d_cap|].
+    intros i Hi. rewrite Hbits.
+    assert (i <? wl v = false) as -> by (apply N.ltb_ge; assumption).
+    rewrite andb_false_r. reflexivity. }
+  cbn [wl wd]. split; [reflexivity|]. split; [assumption|]. exact Hbits.
+Qed.
+
+Lemma d_shr_ref_spec v k :
+  canon_wv 64 v ->
+  exists v', d_shr_ref v k = Ok v' /\ canon_wv 64 v' /\ wl v' = wl v /\ lenw (wd v') = cfbl_d (wl v) /\
+    forall i, N.testbit (raw 64 (wd v')) i = N.testbit (raw 64 (wd v)) (i + shift_amount k).
+Proof.
+  change 64 with W64.
+  intros Hc. pose proof Hc as (Hd & Hlen & Hraw).
+  unfold d_shr_ref. set (shift := shift_amount k).
+  destruct (shr_ref_loop_spec W64 W64_pos eq_refl (wd v) (cfbl_d (wl v)) (wl v) shift (S (N.to_nat (wl v)))
+              (zerosw (cfbl_d (wl v))) 0)
+    as (d1 & idx & E1 & (Hd1 & Hl1 & Hb1) & Hidx').
+  { assumption. }
+  { apply cfbl_d_cap. }
+  { split; [apply words_ok_zerosw|]. split; [apply lenw_zerosw|]. intros i.
+    rewrite raw_zerosw, N.bits_0.
+    assert (i <? 0 = false) as -> by (apply N.ltb_ge; clear; lia). reflexivity. }
+  { clear. lia. }
+  rewrite E1. cbn [bind].
+  exists (mkwv d1 (wl v)). split; [reflexivity|].
+  assert (forall i, N.testbit (raw W64 d1) i = N.testbit (raw W64 (wd v)) (i + shift)) as Hbits.
+  { intros i. rewrite Hb1.
+    destruct (N.ltb_spec i idx) as [Hi|Hi]; [reflexivity|]. cbn [andb].
+    symmetry. apply (canon_raw_high W64 v _ Hc). clear - Hi Hidx'. lia. }
+  split.
+  { apply canon_of_bits; [assumption|rewrite Hl1; apply cfbl_d_cap|].
+    intros i Hi. rewrite Hbits. apply (canon_raw_high W64 v _ Hc). clear - Hi. lia. }
+  cbn [wl wd]. split; [reflexivity|]. split; [assumption|]. exact Hbits.
+Qed.
